@@ -96,12 +96,65 @@ func nhScenarioSMC(rec *nhRec, tid int, seed int64, smType string, store string,
 			case x < 40 && nh != nil:
 				_, _ = nh.RequestSnapshot(shard, SnapshotOption{OverrideCompactionOverhead: true,
 					CompactionOverhead: uint64(rng.Intn(3))}, 500*time.Millisecond)
-			case x < 52 && nh != nil:
+			case x < 50 && nh != nil:
 				exports++
 				dir := fmt.Sprintf("/export%d/%d", hid, exports)
 				if err := fileutil.MkdirAll(dir, c.host(hid).fs); err == nil {
 					_, _ = nh.RequestSnapshot(shard, SnapshotOption{Exported: true, ExportPath: dir}, 500*time.Millisecond)
 				}
+			case x < 58 && nh != nil:
+				// a long running query is still inside the state machine when its shard is stopped
+				h := c.host(hid)
+				h.smu.Lock()
+				for k := len(h.sms) - 1; k >= 0; k-- {
+					if h.sms[k].shard == shard {
+						atomic.StoreInt32(&h.sms[k].hold, int32(40+rng.Intn(80)))
+						break
+					}
+				}
+				h.smu.Unlock()
+				// variant A: the query is already running when the shard is stopped;
+				// variant B: ReadIndex has completed, the shard is stopped, and only then the
+				// client calls ReadLocalNode with the RequestState it still holds
+				var rs *RequestState
+				if rng.Intn(2) == 0 {
+					if x, err := nh.ReadIndex(shard, 200*time.Millisecond); err == nil {
+						select {
+						case rr := <-x.ResultC():
+							if rr.Completed() {
+								rs = x
+							}
+						case <-time.After(300 * time.Millisecond):
+						}
+					}
+				}
+				if rs == nil {
+					go func() {
+						defer func() { _ = recover() }()
+						_, _ = nh.StaleRead(shard, nhQuery{Op: "r", K: "a"})
+					}()
+					time.Sleep(time.Duration(2+rng.Intn(6)) * time.Millisecond)
+				}
+				r.hmu[hid-1].Lock()
+				if h.alive && h.nh != nil {
+					if err := h.nh.StopShard(shard); err == nil {
+						if rs != nil {
+							go func() {
+								defer func() { _ = recover() }()
+								_, _ = nh.ReadLocalNode(rs, nhQuery{Op: "r", K: "a"})
+							}()
+						}
+						c.rec.emit("Fault", nhEv{"what": "stopshard-with-query", "h": hid, "shard": shard})
+						time.Sleep(time.Duration(rng.Intn(15)) * time.Millisecond)
+						for try := 0; try < 200; try++ {
+							if err := c.startReplicaOf(h, shard, nil, false); err == nil {
+								break
+							}
+							time.Sleep(2 * time.Millisecond)
+						}
+					}
+				}
+				r.hmu[hid-1].Unlock()
 			case x < 64 && nh != nil:
 				// a snapshot job of one shard waits for the only snapshot worker (busy with the
 				// other shard) while its shard is stopped and started again
